@@ -287,8 +287,13 @@ def _pcs_body(c):
     sp = [g for g, p, nd in c.x['spawns'] if g.qual == 'Cluster.allocate_task_to_cluster']
     st0 = z3.Select(s0.heap('Task', 'task_status'), t.t)
     st1 = z3.Select(n.heap('Task', 'task_status'), t.t)
+    sch0, sch1 = s0['schedule'], n['schedule']
     if len(sp) == 0:
-        return [('C01-skipped-proposal-changes-no-status', st1 == st0)]
+        # a refused proposal (machine handed out this round / busy) is kept for the next round: the algorithms drop a task from
+        # their pool once they have proposed it, so the retained schedule is the only memory of it (C04: no task is lost
+        # whatever the algorithm proposed)
+        return [('C01-skipped-proposal-changes-no-status', st1 == st0),
+                ('C04-skipped-proposal-stays-in-the-schedule', z3.And(z3.Select(sch1.keys, t.t), z3.Select(sch1.vals, t.t) == m.t))]
     if len(sp) > 1:
         return [('C01-at-most-one-allocation-per-proposal', z3.BoolVal(False))]
     g = sp[0]
@@ -298,7 +303,8 @@ def _pcs_body(c):
             ('C04-submitted-task-is-marked-scheduled', st1 == TS('SCHEDULED')),
             ('C17-allocation-is-for-the-proposed-pair', z3.And(g.args['task'].t == t.t, g.args['machine'].t == m.t)),
             ('C09-allocation-carries-the-workflow-id', c.eng.as_int_term(g.args['observation']) == n.workflow_id.t),
-            ('C04-its-task-has-not-run', z3.And(k.run.count(t) == 0, z3.Not(z3.And(k.fin.has(t), z3.Select(k.fin.vals, t.t)))))]
+            ('C04-its-task-has-not-run', z3.And(k.run.count(t) == 0, z3.Not(z3.And(k.fin.has(t), z3.Select(k.fin.vals, t.t))))),
+            ('C04-submitted-proposal-leaves-the-schedule', z3.Not(z3.Select(sch1.keys, t.t)))]
 
 
 REG.contract('Scheduler._process_current_schedule', world=SW,
